@@ -1281,7 +1281,18 @@ func (e *Engine) opAddHardCert() {
 		key, blob = c.Cert, c.Blob
 	}
 	ub := e.snapshotU()
+	orig := key
+	var scratch []byte
+	if _, ok := key.(*ssh.Certificate); ok && e.R.Intn(4) == 0 {
+		// the same certificate in the shape a listing returns it (format + blob). The buffer stays the shim's: what a
+		// caller does to memory it has handed over is outside the property (the shim keeps a caller's *ssh.Certificate
+		// the same way)
+		scratch = []byte(blob)
+		key = &agent.Key{Format: key.Type(), Blob: scratch, Comment: "as listed"}
+		e.St.Ops["add-hard-cert given a listed identity (format + blob)"]++
+	}
 	err := e.Shim.AddHardCert(key, "hc"+gen.Ident(e.R, 3))
+	key = orig
 	ua := e.snapshotU()
 	e.log("add-hard-cert", e.describe(blob), errStr(err))
 	if e.locked {
